@@ -184,7 +184,7 @@ def _validate_loops():
     keys = [f"all({H}[j] in child_to_parent for j in range(len({H})))"]
     pair_done = [c.replace(f"for k in range(len({H}) - 1)", "for k in range(_i)")
                   .replace(f"for k in range(1, len({H}))", "for k in range(1, _i + 1)")
-                 for c in wf_tree(t, ('child_exists', 'has_parent', 'one_parent'))]
+                 for c in wf_tree(t, ('child_exists', 'has_parent', 'one_parent', 'once'))]
     empty_from = lambda lo: (f"implies(dupfree({H}), all(len(child_to_parent[{H}[j]]) == 0 "   # noqa: E731
                              f"for j in range({lo}, len({H}))))")
     seen_done = (f"all({up}[p][i] in child_set and {up}[p][i] in {cur} and {cur}[{up}[p][i]] == p "
@@ -196,9 +196,10 @@ def _validate_loops():
         4: [f"all(any(first_index({up}[p], x) < len({up}[p]) for p in _seen) for x in with_parent)",
             f"all({up}[p][i] in with_parent for p in _seen for i in range(len({up}[p])))"],
         5: ["all(c in with_parent for c in _seen)"],
-        6: keys + [empty_from("_i3 + 2"), seen_done,
+        6: keys + [empty_from("_i3 + 2"), seen_done, f"all(dupfree({up}[p]) for p in _seen)",
                    f"implies(dupfree({H}), all({cur}[c] in _seen and c in {up}[{cur}[c]] for c in {cur}))"],
-        7: keys + [empty_from("_i3 + 2"), seen_done,
+        7: keys + [empty_from("_i3 + 2"), seen_done, f"all(dupfree({up}[p]) for p in _seen6)",
+                   f"all({up}[this_parent][a] != {up}[this_parent][b] for a in range(_i) for b in range(_i) if a < b)",
                    f"all({up}[this_parent][i] in child_set and {up}[this_parent][i] in {cur} "
                    f"and {cur}[{up}[this_parent][i]] == this_parent for i in range(_i))",
                    f"implies(dupfree({H}), all(({cur}[c] in _seen6 and c in {up}[{cur}[c]]) or "
@@ -232,8 +233,8 @@ def mutate_tree(rng, tree, findings=True):
         kind = 'none'
     if kind == 'self_parent':        # S-9 witness: a level named twice, every node its own parent
         return {'hierarchy': [H[-1], H[-1]], H[-1]: {n: [n] for n in t[H[-1]]}}
-    if kind == 'empty_hierarchy':        # outside the property's quantifier (depth >= 1): IndexError
-        kind = 'none'
+    if kind == 'empty_hierarchy':
+        return {'hierarchy': []}
     lv = rng.choice(H)
     li = H.index(lv)
     nodes = list(t[lv].keys())
@@ -290,20 +291,7 @@ contract(
                 all_rows='List[Name]', expected_keys='Set[Name]'),
     # typing restriction of the blob model: the entry under 'hierarchy' is the level list, so it
     # cannot also be a node table (natively such a blob dies with AttributeError, see report)
-    requires=[f"'hierarchy' not in {V_} or 'hierarchy' not in {VH}",
-              # the property quantifies over depth >= 1; an empty hierarchy dies with IndexError
-              # (hierarchy[-1]) instead of the validator's RuntimeError - reported as an observation
-              f"'hierarchy' not in {V_} or len({VH}) >= 1"],
-    # S-9 / S-10: the two clauses of wf_tree the validator does not enforce; the contract is proved
-    # outside the witness classes and the witnesses are replayed on every run
-    known_findings=[
-        dict(id='S-9', exclude=f"'hierarchy' in {V_} and not dupfree({VH})",
-             witness=dict(taxonomy_tree={'hierarchy': ['a', 'a'], 'a': {'x': ['x']}})),
-        dict(id='S-10', exclude=f"'hierarchy' in {V_} and all({VH}[k] in {V_} for k in range(len({VH}))) and not ("
-             + wf_tree(V_, ('once',))[0] + ")",
-             witness=dict(taxonomy_tree={'hierarchy': ['a', 'b'], 'a': {'A': ['c1', 'c1', 'c2']},
-                                         'b': {'c1': [0], 'c2': [1]}})),
-    ],
+    requires=[f"'hierarchy' not in {V_} or 'hierarchy' not in {VH}"],
     # normal return => wf_tree; RuntimeError => not wf_tree  (together: accepted iff well formed)
     ensures=KEYS_OK + [NODES_STR] + WF_V,
     raises={'RuntimeError': f"'hierarchy' not in {V_} or " + _neg(KEYS_OK) + f" or not ({NODES_STR}) or "
